@@ -7,4 +7,6 @@ void registerAll()
     reg_srv();
     reg_copier();
     reg_auth();
+    reg_lauth();
+    reg_slot();
 }
